@@ -306,7 +306,8 @@ func (p *poller) readWriteLoop() {
 										_ = c.closeWithError(err)
 										break
 									}
-									if n < bufLen {
+									// a short read means drained only on a stream socket.
+									if n < bufLen && !c.IsUDP() {
 										break
 									}
 								}
